@@ -70,7 +70,7 @@ type c11Combo struct {
 
 func c11Bounds(tier string) (int, int) {
 	if tier == "thorough" {
-		return 26, 9
+		return 40, 12
 	}
 	return 14, 5
 }
